@@ -13,6 +13,30 @@ CHECKS = {
    technique="symbolic execution into z3 FP/BV with the random draw as a bit-vector variable; SMT over all inputs x all draws"),
 }
 
+S_NOTE = ("Trusted: z3 NRA (nlsat + default portfolio, dims relaxed to reals for unsat, integer model required for sat); the torch-op stubs of vf/sym/tensor.py "
+          "(opaque terms + shape rules validated against torch meta tensors at every call); the mini-autograd; Python floats modelled as reals (1e-9 relative where the "
+          "source carries already-rounded constants). Every sat answer is replayed on the real code with real float64 tensors before it is reported.")
+CHECKS.update({
+ "C01": dict(engine="symtorch", category="model_checking", design_ref="DESIGN.md §2, §4 C01",
+   text="All 16 public functions of unit_scaling.functional are executed unmodified on symbolic tensors (symbolic dims up to 2^20, symbolic hyperparameters, universally quantified data) next to their PyTorch reference; z3 decides per path that the result is c x reference with c > 0 (c = 1 for losses/norms/embedding), equal shapes, definedness of every log/sqrt/division, no input modified; unsupported PyTorch arguments must raise on every path. Discrete selectors (op, rank, optional tensors, constraint, flags, dtype) enumerated exhaustively per tier.",
+   note=S_NOTE, technique="symbolic execution of the real Python through __torch_function__ with symbolic shapes; z3 nonlinear real arithmetic; counterexample replay"),
+ "C02": dict(engine="symtorch", category="model_checking", design_ref="DESIGN.md §2.3, §4 C02",
+   text="Same harnesses followed by a backward pass through the mini-autograd (the real _ScaledGrad.forward/backward bodies run; torch ops contribute opaque vjp terms linear in a free upstream gradient): every input gradient is a_i x the reference gradient with a_i > 0, data- and upstream-independent; scale_fwd/scale_bwd with a symbolic factor in [-1000,1000].",
+   note=S_NOTE, technique="symbolic execution + symbolic reverse-mode tape; z3 NRA; replay"),
+ "C03": dict(engine="symtorch", category="model_checking", design_ref="DESIGN.md §4 C03",
+   text="With constraint None, factor^2 x (#independent unit-variance terms) = 1 is decided by z3 for every output/gradient tensor of linear, matmul, conv1d, add, embedding, dropout, mse_loss and the norm gains/biases, for all shapes; the term-count contracts are validated on every run against the PyTorch reference run on all-ones tensors.",
+   note=S_NOTE + " Term counts are stub contracts (validated per run at sample dims, solver covers all dims).", technique="symbolic execution; z3 NRA over symbolic shapes; all-ones contract validation; replay"),
+ "C05": dict(engine="symtorch", category="model_checking", design_ref="DESIGN.md §4 C05",
+   text="apply_constraint and the seven rule functions on 1-6 symbolic scales (equal outputs, = independent rule formula, symmetry, min<=mean<=max, hmean<=gmean<=amean); for every op with a constraint argument and every valid name, forward factor = constrained gradient factors = rule(unconstrained factors) for all shapes, weight/bias factors unaffected, None keeps each ideal value; unknown names raise ValueError (one symbolic path + reflection over the module namespace, labelled enumeration).",
+   note=S_NOTE, technique="symbolic execution; z3 NRA (roots as fresh positives); replay"),
+ "C06": dict(engine="symtorch", category="model_checking", design_ref="DESIGN.md §4 C06",
+   text="Real residual_split/residual_add/residual_apply with symbolic tau per layer, opaque x of any shape and an uninterpreted differentiable branch function: output and gradient at x equal the closed form (x + tau f(x))/sqrt(1+tau^2) and its derivative, the branch sees the unattenuated upstream gradient, weights' squares sum to 1; sequential and nested stacks (quick depth <= 3, thorough <= 8).",
+   note=S_NOTE + " Branch function is an uninterpreted symbol: holds for every differentiable branch.", technique="symbolic execution with an uninterpreted branch function; z3 NRA; replay"),
+ "C07": dict(engine="symtorch", category="model_checking", design_ref="DESIGN.md §4 C07",
+   text="The real transformer_residual_scaling_rule executed with symbolic residual_mult, residual_attn_ratio in [1/16,16], symbolic depth L <= 2^20 and branch index (both parities): z3 proves tau_k^2 = alpha_k^2/D_k and the inductive step of the contribution invariant, plus base case and the five final claims => all depths at once; unrolled cross-check for small depths with a call history on the shared rule object; TransformerStack wiring structurally.",
+   note=S_NOTE + " Inductive argument: invariant written from the docstring; unrolled depths only 1..2 (quick)/1..3 (thorough) because z3 times out beyond.", technique="symbolic execution of the scalar rule; inductive invariant discharged by z3 nlsat; replay"),
+})
+
 NA = {
  "C20": "TorchDynamo/AOT-autograd/Inductor cannot be executed symbolically or translated to SMT; the property is about float agreement of two compiled pipelines (DESIGN.md §4 C20).",
 }
